@@ -561,6 +561,23 @@ func (c *c20) Run(cs core.Case) core.Result {
 		if p.Fmt == "par2" {
 			expect("create-invalid-slice-size", runPar(cwd, "c", "-s", "5", spell("s"+ext), spell(w.dataRel[0])), "other-failure")
 		}
+		// the profile option: a profile that cannot be written is a failure of
+		// its own kind for every command (never 0, and not 1/2/3, which speak
+		// about repair and usage); one that can be written changes nothing
+		{
+			badProf := filepath.Join(setDir, "no-such-dir", "cpu.prof")
+			expect("create-unwritable-cpuprofile", runPar(cwd, "-cpuprofile", badProf, "c", "-c", "2", spell("cp"+ext), spell(w.dataRel[0])), "other-failure")
+			if cr.exit == 0 {
+				expect("verify-unwritable-cpuprofile", runPar(cwd, "-cpuprofile", badProf, "v", newIdx), "other-failure")
+				expect("repair-unwritable-cpuprofile", runPar(cwd, "-cpuprofile", setDir, "r", newIdx), "other-failure")
+				goodProf := filepath.Join(w.root, "cpu.prof")
+				expect("verify-with-cpuprofile", runPar(cwd, "-cpuprofile", goodProf, "v", newIdx), "0")
+				if st, err := os.Stat(goodProf); err != nil || st.IsDir() {
+					r.Violate("cpuprofile-not-written", "verify -cpuprofile %s exited but the profile does not exist: %v", goodProf, err)
+				}
+				os.Remove(goodProf)
+			}
+		}
 		// option values at and beyond the edges: either a failure status (not 1
 		// or 2, which speak about repair) or a set that verifies
 		for oi, opt := range [][]string{{"-c", "0"}, {"-c", "-1"}, {"-s", "0"}, {"-s", "-8"}, {"-g", "0"}, {"-g", "-3"}, {"-c", "70000"}, {"-s", "3"}, {"-c", "1"}, {"-g", "100000"}} {
